@@ -1,6 +1,8 @@
 (* C12 - intersection queries are exact for segments. *)
 From Coq Require Import QArith Qabs.
-From LV Require Import Base.Prelude Model.Bezier Model.LineInter Proofs.C12_LineInter Gen.Functions Proofs.Gen_Geom Proofs.Gen_GeomProps.
+From Coq Require Import List Sorted.
+From LV Require Import Base.Prelude Model.Bezier Model.LineInter Model.QuadLine Proofs.C12_LineInter Proofs.C12_QuadLine
+  Gen.Functions Proofs.Gen_Geom Proofs.Gen_GeomProps.
 Open Scope Q_scope.
 
 (* the returned parameters locate a common point on both segments, which are then
@@ -66,6 +68,40 @@ Theorem C12_src_line_intersection_complete : forall s o t u,
   exists t' u', src_line_intersection_t s o = Some (t', u') /\ t' == t /\ u' == u.
 Proof. exact src_line_intersection_complete. Qed.
 
+(* ---- line x quadratic: QuadraticBezierSegment::line_intersections_t (Model/QuadLine.v, statement by statement, float
+   special cases written out; the square root is an oracle assumed correct only at the discriminant the code passes it).
+   Sound: every reported parameter is in [0,1] and its point is ON the line.  Complete: every parameter in [0,1] whose
+   point is on the line is reported, unless the curve's projection across the line is constant.  Increasing, hence
+   without duplicates.  The pinned code's linear branch (c / b for - c / b) is refuted by a witness - the defect
+   repaired in /repo (known_findings.txt, fixed: 3905ccba). *)
+Theorem C12_quad_line_sound : forall sq c ea eb ec t,
+  sqrt_ok_at sq (q_line_delta c ea eb ec) ->
+  In t (q_line_intersections_t sq c ea eb ec) ->
+  0 <= t /\ t <= 1 /\ on_line ea eb ec (q_sample c t).
+Proof. exact q_line_sound. Qed.
+
+Theorem C12_quad_line_complete : forall sq c ea eb ec t,
+  sqrt_ok_at sq (q_line_delta c ea eb ec) ->
+  (let '(a, b, _) := q_line_poly c ea eb ec in ~ (a == 0 /\ b == 0)) ->
+  0 <= t -> t <= 1 -> on_line ea eb ec (q_sample c t) ->
+  exists t', In t' (q_line_intersections_t sq c ea eb ec) /\ t' == t.
+Proof. exact q_line_complete. Qed.
+
+Theorem C12_quad_line_sorted : forall sq c ea eb ec,
+  StronglySorted Qlt (q_line_intersections_t sq c ea eb ec).
+Proof. exact q_line_sorted. Qed.
+
+Theorem C12_quad_line_pinned_refuted : exists sq c ea eb ec t,
+  sqrt_ok_at sq (q_line_delta c ea eb ec)
+  /\ In t (q_line_intersections_t_pinned sq c ea eb ec)
+  /\ ~ on_line ea eb ec (q_sample c t).
+Proof. exact q_line_pinned_refuted. Qed.
+
+Example C12_quad_line_example :
+  map Qred (q_line_intersections_t (fun _ => 1) (mkQuad (0,0) (1#2,1) (1,0)) 1 0 (-(1#2))) = [1#2]
+  /\ q_line_intersections_t_pinned (fun _ => 1) (mkQuad (0,0) (1#2,1) (1,0)) 1 0 (-(1#2)) = [].
+Proof. exact q_line_fixed_example. Qed.
+
 Print Assumptions C12_inter_sound.
 Print Assumptions C12_inter_complete.
 Print Assumptions C12_inter_unique.
@@ -77,3 +113,7 @@ Print Assumptions C12_seg_line_complete.
 Print Assumptions C12_intersections_are_source.
 Print Assumptions C12_src_line_intersection_sound.
 Print Assumptions C12_src_line_intersection_complete.
+Print Assumptions C12_quad_line_sound.
+Print Assumptions C12_quad_line_complete.
+Print Assumptions C12_quad_line_sorted.
+Print Assumptions C12_quad_line_pinned_refuted.
